@@ -47,3 +47,21 @@ Theorem C02_uncounted_hit_refuted :
   Cache.closed_held (Cache.crun false [Cache.CGet 1 7; Cache.CGet 2 7; Cache.CRelease 1; Cache.CCleanup]) = true.
 Proof. exact CacheProofs.uncounted_hit_refuted. Qed.
 Print Assumptions C02_uncounted_hit_refuted.
+
+(* ---- the rollup layer (kv/family_rollup.go, kv/family.go deleteObsoleteFiles): every history of flushes, compactions,
+   rollup runs whose work succeeds or fails per target, and sweeps - a file whose rollup to some target has not succeeded is
+   in the directory and still marked; the files of the current version are in the directory ---- *)
+From LinDBV.C02 Require Rollup RollupProofs.
+Theorem C02_rollup_files_kept : forall evs f t,
+  let s := Rollup.run false evs in
+  In (f, t) (Rollup.unrolled s) -> In f (Rollup.disk s) /\ In (f, t) (Rollup.marks s).
+Proof. exact RollupProofs.rollup_files_kept. Qed.
+Print Assumptions C02_rollup_files_kept.
+Theorem C02_rollup_version_files_kept : forall evs f,
+  let s := Rollup.run false evs in In f (Rollup.l0 s ++ Rollup.l1 s) -> In f (Rollup.disk s).
+Proof. exact RollupProofs.version_files_kept. Qed.
+Print Assumptions C02_rollup_version_files_kept.
+(* refuted for a rollup run that removes the marks of a target whose work failed *)
+Theorem C02_failed_rollup_unmarks_refuted : RollupProofs.lost (Rollup.run true RollupProofs.hist) = true.
+Proof. exact RollupProofs.failed_rollup_unmarks_refuted. Qed.
+Print Assumptions C02_failed_rollup_unmarks_refuted.
